@@ -113,6 +113,17 @@ EXTRA_SETS: Dict[str, Dict[str, str]] = {
         "dr_fields.proto": _P3 + "package vfdep.fields;\nmessage M { int32 userId = 1 [deprecated = true]; string HTTPStatus = 2 [deprecated = true]; "
                            "bool from = 3 [deprecated = true]; int32 plain = 4; }\n",
     },
+    # map fields whose names protoc and the plugin case differently; a map next to a field called <map>_value; types
+    # nested in messages whose class name needs the keyword / identifier guard
+    "odd_map_and_nested_names": {
+        "om_maps.proto": _P3 + "package vfodd.maps;\nmessage V { int32 x = 1; string s = 2; }\nmessage M { map<string, int32> HTTPStatus = 1; map<string, V> userID = 2; "
+                         "map<int32, string> APIKeys = 3; map<string, V> sha256sum = 4; map<string, bool> md5sums = 5; map<string, V> oauth2scopes = 6; "
+                         "map<string, V> items = 7; V items_value = 8; map<string, V> items_entry = 9; V items_key = 10; }\n",
+        "om_nested.proto": _P3 + "package vfodd.nested;\nmessage Holder { message _1st { int32 x = 1; } _1st first = 1; repeated _1st firsts = 2; }\n"
+                           "message None { message Inner { int32 y = 1; } Inner inner = 1; map<string, Inner> inners = 2; }\n"
+                           "message True { enum Kind { KIND_ZERO = 0; KIND_ONE = 1; } Kind k = 1; message Deep { message Deeper { int32 z = 1; } Deeper d = 1; } Deep deep = 2; }\n"
+                           "message User { None n = 1; None.Inner ni = 2; True.Kind tk = 3; Holder._1st h = 4; }\n",
+    },
     # user types named like names the runtime itself imports / defines
     "named_like_library": {
         "nl_types.proto": _P3 + "package vfnames;\nmessage Duration { int32 minutes = 1; string label = 2; }\nmessage Timestamp { int64 ticks = 1; }\n"
@@ -190,7 +201,8 @@ def value_items(tier: str, seed: int, n_gen: int, with_inputs: bool = True) -> L
     items: List[dict] = [{"kind": "matrix"}, {"kind": "handmade"}, {"kind": "matrix", "plugin_opts": "typing.310"},
                          {"kind": "matrix", "plugin_opts": "pydantic_dataclasses"}, {"kind": "features"},
                          {"kind": "extra", "name": "named_like_library"}, {"kind": "extra", "name": "enum_only_pkg"},
-                         {"kind": "extra", "name": "deprecated_rpc_only"}, {"kind": "extra", "name": "package_cycle"}]
+                         {"kind": "extra", "name": "deprecated_rpc_only"}, {"kind": "extra", "name": "package_cycle"},
+                         {"kind": "extra", "name": "odd_map_and_nested_names"}]
     for i in range(n_gen):
         items.append({"kind": "gen", "seed": seed * 100003 + i, "opts": {"services": False}})
     if with_inputs:
